@@ -359,12 +359,13 @@ def regen(chk, modules):
         text, err = res[m]
         funcs = ", ".join(s["func"] for s in translate.SPECS + translate.SCAN_SPECS if s["module"] == m) or \
             {"Wellknown": "WellknownRedirector.__call__, WELLKNOWN_DAV_PATHS", "IterChanges": "GitStore.iter_changes", "Multiget": "_get_resources_by_hrefs",
+             "ExcTables": "except tables of set_body, create_member, PutMethod.handle, PostMethod.handle",
              "Gates": "precondition gates of PutMethod.handle, DeleteMethod.handle, _do_get"}.get(m, m)
         tr[funcs] = "ok" if text else "unavailable: " + err
         if err:
             chk.notes.append("translation of %s unavailable (%s): tied by correspondence only" % (funcs, err))
         else:
             good.append(m)
-    if good:
-        validate(chk, good)
+    if [m for m in good if m != "ExcTables"]:
+        validate(chk, [m for m in good if m != "ExcTables"])
     return [m for m in modules if m not in good]
